@@ -458,6 +458,46 @@ func (g *G) expr(want *m.Type, fuel int) *m.Expr {
 			return m.Call("lz_pick", mode, g.expr(want, fuel-1), g.expr(want, fuel-1))
 		})
 	}
+	if g.O.Poison {
+		add(2, func() *m.Expr { // deliberately failing sub-expression
+			g.stat("poison")
+			inner := g.leaf(want)
+			switch g.intn("poisonkind", 4) {
+			case 0:
+				if want.K == m.TNum {
+					return m.Infix("%", inner, m.Lit("num", "0"))
+				}
+				return m.Call("boom", inner)
+			case 1:
+				if !hasBot {
+					return m.Index(m.ListE(inner), m.Lit("num", "99"))
+				}
+				return m.Call("boom", inner)
+			case 2:
+				if !hasBot {
+					return m.Index(m.MapE(m.Lit("str", `"k"`), inner), m.Lit("str", `"absent"`))
+				}
+				return m.Call("boom", inner)
+			default:
+				return m.Call("boom", inner)
+			}
+		})
+		if !hasBot {
+			add(2, func() *m.Expr { // guarded partial operation: if(isset(m,k), m[k], d)
+				g.stat("guarded-partial")
+				kt := m.Str
+				mt := m.Map(kt, want)
+				var mp *m.Expr
+				if g.chance("guardvar", 1, 2) {
+					mp = g.Var(mt)
+				} else {
+					mp = g.literal(mt, 1)
+				}
+				k := g.keyExpr(kt, 0)
+				return g.cond(m.Call("isset", mp, k), m.Index(mp.Clone(), k.Clone()), g.expr(want, fuel-1))
+			})
+		}
+	}
 	// ---- by type
 	switch want.K {
 	case m.TNum:
@@ -775,4 +815,220 @@ func (g *G) AnyResultType() *m.Type {
 	default:
 		return g.anyType(3)
 	}
+}
+
+
+// WrapTr wraps every operand position in tr(label, ·) with a unique label:
+// call arguments (operator operands, conditional parts, receivers), list
+// elements, map keys and values, object fields, subscript operands and the
+// object of a member access. Apply before Parenthesize.
+func WrapTr(e *m.Expr, next *int) *m.Expr {
+	n := *e
+	n.A = make([]*m.Expr, len(e.A))
+	for i, a := range e.A {
+		n.A[i] = WrapTr(a, next)
+	}
+	wrap := func(i int) {
+		if n.A[i].K == "call" && n.A[i].Name == "tr" {
+			return
+		}
+		*next++
+		n.A[i] = m.Call("tr", m.Lit("num", strconv.Itoa(*next)), n.A[i])
+	}
+	switch n.K {
+	case "list", "map", "obj", "index", "member", "prefix", "postfix", "infix", "tern", "mcall":
+		for i := range n.A {
+			wrap(i)
+		}
+	case "call":
+		if n.Name != "tr" {
+			for i := range n.A {
+				wrap(i)
+			}
+		}
+	case "dcall":
+		for i := 1; i < len(n.A); i++ {
+			wrap(i)
+		}
+	}
+	return &n
+}
+
+// ExprTraced: like Expr, with every operand position wrapped in tr.
+func (g *G) ExprTraced(want *m.Type) *m.Expr {
+	e := g.expr(want, g.O.Fuel)
+	next := 1000
+	e = WrapTr(e, &next)
+	e = Parenthesize(e)
+	if g.O.Sugar {
+		e = g.redundantGroups(e)
+	}
+	return e
+}
+
+// ---------------------------------------------------------------- stress classes
+
+// Stress builds programs that exceed the VM's initial stack (42 slots) and
+// 8-bit ranges: kind ∈ deep-right, deep-calls, wide-list, wide-map, wide-obj,
+// many-consts, long-arms, nested-thunks, many-args(needs harness overloads).
+func Stress(t *rapid.T, kind string, n int) *m.Expr {
+	return StressFixed(kind, n, rapid.Bool().Draw(t, "armsel"))
+}
+
+// StressFixed is Stress without random choices.
+func StressFixed(kind string, n int, sel bool) *m.Expr {
+	lit := func(i int) *m.Expr { return m.Lit("num", strconv.Itoa(i%1000)) }
+	switch kind {
+	case "deep-right":
+		e := lit(1)
+		for i := 0; i < n; i++ {
+			e = m.Infix("+", lit(i), m.Group(e))
+		}
+		return e
+	case "deep-calls":
+		e := lit(1)
+		for i := 0; i < n; i++ {
+			e = m.Call("max", lit(i), e)
+		}
+		return e
+	case "wide-list":
+		xs := make([]*m.Expr, n)
+		for i := range xs {
+			xs[i] = lit(i)
+		}
+		return m.Index(m.ListE(xs...), m.Lit("num", strconv.Itoa(n-1)))
+	case "wide-list-len":
+		xs := make([]*m.Expr, n)
+		for i := range xs {
+			xs[i] = lit(i)
+		}
+		return m.Call("len", m.ListE(xs...))
+	case "wide-map":
+		var kvs []*m.Expr
+		for i := 0; i < n; i++ {
+			kvs = append(kvs, m.Lit("num", strconv.Itoa(i)), lit(i+1))
+		}
+		return m.Index(m.MapE(kvs...), m.Lit("num", strconv.Itoa(n-1)))
+	case "wide-obj":
+		keys := make([]string, n)
+		vals := make([]*m.Expr, n)
+		for i := range keys {
+			keys[i] = "f" + strconv.Itoa(i)
+			vals[i] = lit(i)
+		}
+		return m.Member(m.ObjE(keys, vals), "f"+strconv.Itoa(n-1))
+	case "long-arms":
+		// conditional whose arms are longer than 255 bytes of code
+		arm := func(k int) *m.Expr {
+			xs := make([]*m.Expr, n)
+			for i := range xs {
+				xs[i] = lit(i + k)
+			}
+			return m.Call("len", m.ListE(xs...))
+		}
+		c := m.Infix("<", lit(1), lit(2))
+		if sel {
+			c = m.Infix(">", lit(1), lit(2))
+		}
+		return m.Infix("+", m.Group(m.Tern(c, arm(0), arm(1))), m.Group(m.Tern(m.Prefix("!", m.Group(c.Clone())), arm(2), m.Infix("+", arm(3), lit(1)))))
+	case "nested-thunks":
+		e := lit(7)
+		for i := 0; i < n; i++ {
+			c := "true"
+			if i%3 == 0 {
+				c = "false"
+			}
+			if i%2 == 0 {
+				e = m.Call("lz_if", m.Lit("bool", c), e, lit(i))
+			} else {
+				e = m.Call("lz_pick", m.Lit("num", strconv.Itoa(i%5)), lit(i), e)
+			}
+		}
+		return e
+	case "nested-logic":
+		e := m.Lit("bool", "true")
+		for i := 0; i < n; i++ {
+			op := "&&"
+			if i%2 == 0 {
+				op = "||"
+			}
+			e = m.Infix(op, m.Group(m.Infix("<", lit(i), lit(i+1))), m.Group(e))
+		}
+		return m.Tern(e, lit(1), lit(2))
+	}
+	panic("unknown stress kind " + kind)
+}
+
+var StressKinds = []string{"deep-right", "deep-calls", "wide-list", "wide-list-len", "wide-map", "wide-obj", "long-arms", "nested-thunks", "nested-logic"}
+
+// LitOf: a deterministic literal expression denoting v (nil when v has no
+// literal form: NaN / Inf, optionals, functions, invalid UTF-8, zones).
+func LitOf(v *m.Val) *m.Expr {
+	switch v.T.K {
+	case m.TNum:
+		x := float64(v.N)
+		if math.IsNaN(x) || math.IsInf(x, 0) {
+			return nil
+		}
+		ax := math.Abs(x)
+		var txt string
+		if ax == math.Trunc(ax) && ax < 1e21 {
+			txt = strconv.FormatFloat(ax, 'f', -1, 64)
+		} else if ax < 1e-6 || ax >= 1e21 {
+			txt = strconv.FormatFloat(ax, 'e', -1, 64)
+		} else {
+			txt = strconv.FormatFloat(ax, 'f', -1, 64)
+		}
+		if math.Signbit(x) {
+			return m.Prefix("-", m.Lit("num", txt))
+		}
+		return m.Lit("num", txt)
+	case m.TStr:
+		if !validUTF8NoFFFD(v.S) {
+			return nil
+		}
+		return m.Lit("str", StrLitText(v.S, false, false))
+	case m.TBool:
+		return m.Lit("bool", strconv.FormatBool(v.B))
+	case m.TTime:
+		if v.Tm.Nano != 0 {
+			return nil
+		}
+		return m.Lit("time", "'@"+strconv.FormatInt(v.Tm.Unix, 10)+"'")
+	case m.TList:
+		if len(v.L) == 0 && v.T.El().K != m.TBot {
+			return nil // an empty literal would have type list[⊥]
+		}
+		xs := make([]*m.Expr, len(v.L))
+		for i, e := range v.L {
+			if xs[i] = LitOf(e); xs[i] == nil {
+				return nil
+			}
+		}
+		return m.ListE(xs...)
+	case m.TMap:
+		if len(v.M) == 0 && v.T.Key().K != m.TBot {
+			return nil
+		}
+		var kvs []*m.Expr
+		for _, e := range v.M {
+			k, x := LitOf(e.K), LitOf(e.V)
+			if k == nil || x == nil {
+				return nil
+			}
+			kvs = append(kvs, k, x)
+		}
+		return m.MapE(kvs...)
+	case m.TObj:
+		keys := make([]string, len(v.L))
+		vals := make([]*m.Expr, len(v.L))
+		for i, e := range v.L {
+			keys[i] = v.T.F[i].Name
+			if vals[i] = LitOf(e); vals[i] == nil {
+				return nil
+			}
+		}
+		return m.ObjE(keys, vals)
+	}
+	return nil
 }
